@@ -688,8 +688,14 @@ def _estimator_case(draw):
         ops = free[:k] + head + free[k:]
     else:
         ops = free or [draw(fit)]
-    return {"family": "estimator", "component": comp, "K": K, "task": task,
+    case = {"family": "estimator", "component": comp, "K": K, "task": task,
             "datasets": dss, "probe": probe, "weights": weights, "ops": ops}
+    if (kind in ("SklearnClassifier", "SklearnRegressor",
+                 "SklearnNormalRegressor")
+            and draw(st.integers(0, 3)) == 0):
+        # the caller hands over an estimator it has already trained
+        case["prefit"] = True
+    return case
 
 
 def _stream_pool(shard, nshards):
@@ -1215,6 +1221,110 @@ def _run_estimator(case):
 
 
 # ======================================================================
+# wrapper around an estimator the caller has trained already: the
+# constructor argument (what get_params reports) is the caller's model and
+# must stay the caller's model whatever is done with the wrapper
+# ======================================================================
+def _inner_state(est, P, is_clf):
+    fn = "predict_proba" if is_clf and hasattr(est, "predict_proba") \
+        else "predict"
+    ok, v = guarded(getattr(est, fn), P.copy())
+    pred = np.asarray(v) if ok else ("raises", type(v).__name__)
+    return pred, snapshot({k: v for k, v in vars(est).items()}, depth=4)
+
+
+def _run_prefit(case):
+    comp = case["component"]
+    kind, cfg = comp["kind"], comp["cfg"]
+    K = case["K"]
+    label = _est_label(comp)
+    cfg_tag = _est_cfg_tag(comp) + "&prefit"
+    labels = [f"component={label}", f"config={cfg_tag}", "prefit_inner"]
+    is_clf = kind == "SklearnClassifier"
+    P = np.array(case["probe"], dtype=float)
+    seed = int(comp.get("seed", 0))
+    inner = (_sk_classifier if is_clf else _sk_regressor)(
+        cfg["est"], cfg.get("warm_start"), seed)
+    ds = case["datasets"][0]
+    X0 = np.array(ds["X"], dtype=float)
+    y0 = np.array(ds["y"], dtype=float)
+    lab = ~np.isnan(y0)
+    if lab.sum() < 2 or (is_clf and len(set(y0[lab].tolist())) < 2):
+        labels.append("prefit_skipped:too_few_labels")
+        return Outcome([], False, labels)
+    ok, r = guarded(inner.fit, X0[lab],
+                    y0[lab].astype(int) if is_clf else y0[lab])
+    if not ok:
+        labels.append(f"prefit_skipped:{type(r).__name__}")
+        return Outcome([], False, labels)
+    from skactiveml import classifier, regressor
+    if is_clf:
+        obj = classifier.SklearnClassifier(
+            inner, classes=_classes(cfg, K), random_state=seed)
+    else:
+        obj = getattr(regressor, kind)(inner, random_state=seed)
+    ref_pred, ref_vars = _inner_state(copy.deepcopy(inner), P, is_clf)
+    wmode = case["weights"]
+    viol, seen = [], set()
+    trained = 0
+    used_before_fit = False
+    for idx, op in enumerate(case["ops"]):
+        name = op["op"]
+        if name in ("predict", "predict_proba", "predict_freq"):
+            ok, r = guarded(getattr(obj, name), P.copy())
+            if ok and trained == 0:
+                used_before_fit = True
+            where = f"{name}"
+            optag = name if trained else f"{name}_before_any_fit"
+        else:
+            use_w = (wmode == "all") or (wmode == "mixed" and op.get("w"))
+            X, y, w = _xyw(case, op, use_w)
+            ok, r = _train_call(obj, name, X, y, w)
+            if ok:
+                trained += 1
+            where = f"op {idx} {name}"
+            optag = name + ("_after_use_unfitted" if used_before_fit
+                            and trained <= 1 else "")
+        if not ok:
+            # whether a prefit wrapper accepts the call is not C13's subject
+            labels.append(f"prefit_call_rejected:{type(r).__name__}")
+            break
+        if obj.get_params(deep=False)["estimator"] is not inner:
+            v = Violation(label, "param_changed:estimator",
+                          f"{cfg_tag}&{optag}",
+                          f"get_params()['estimator'] is no longer the "
+                          f"object passed to the constructor after {where}")
+            if v.signature not in seen:
+                seen.add(v.signature)
+                viol.append(v)
+            break
+        pred, vs = _inner_state(inner, P, is_clf)
+        same = (vs == ref_vars) and (
+            (isinstance(pred, tuple) and pred == ref_pred)
+            or (not isinstance(pred, tuple)
+                and not isinstance(ref_pred, tuple)
+                and pred.shape == ref_pred.shape
+                and arr_equal_exact(pred, ref_pred)))
+        if not same:
+            d = snapshot_diff(ref_vars, vs, path="estimator", limit=2)
+            v = Violation(
+                label, "constructor_estimator_trained_in_place",
+                f"{cfg_tag}&{optag}",
+                f"the trained estimator passed to the constructor (and "
+                f"reported by get_params) changed during {where}: "
+                f"{'; '.join(d) or 'its predictions differ'}")
+            if v.signature not in seen:
+                seen.add(v.signature)
+                viol.append(v)
+            break
+    if used_before_fit:
+        labels.append("prefit_used_before_fit")
+    if trained:
+        labels.append("prefit_then_trained")
+    return Outcome(viol, trained > 0, labels)
+
+
+# ======================================================================
 # stream family: parameter invariance under query / update
 # ======================================================================
 def _run_stream(case):
@@ -1429,6 +1539,8 @@ def _run_pool(case):
 def run_case(case):
     fam = case["family"]
     if fam == "estimator":
+        if case.get("prefit"):
+            return _run_prefit(case)
         return _run_estimator(case)
     if fam == "stream":
         return _run_stream(case)
